@@ -1139,7 +1139,7 @@ func runMultiContract(p *Program, r *RuleResult) {
 // R-CUT-SPLIT (C05): the cut hands the spawned body exactly the names it mentions.
 func init() {
 	register(&Rule{Name: "R-CUT-SPLIT", Min: 2,
-		Doc: "at every cut the context is split by the helper applied to the free names (or call parameters) of the very form that is then typed as the body, with no name exempted from the split; the body is typed in the first result and the continuation in the second",
+		Doc: "at every cut the context is split by the helper applied to the free names (or call parameters) of the very form that is then typed as the body, with no name exempted from the split; the body is typed in the first result and the continuation in the second; the type the body is typed against is the type under which the new name is inserted into the second half (same value, same field path or same field of the same object, up to unfolding and copying)",
 		Run: runCutSplit})
 }
 
@@ -1250,6 +1250,107 @@ func runCutSplit(p *Program, r *RuleResult) {
 						problems = append(problems, "a name is exempted from the split ("+describeVal(a)+"): if the body mentions it, it is neither handed to the body nor removed from the context, so a live channel of that name is silently shadowed")
 					}
 				}
+			}
+			// the body is typed against the type under which the new name then enters the
+			// continuation's context
+			if bodyCall != nil && contCall != nil && right != nil {
+				var bodyType ssa.Value
+				for _, a := range bodyCall.Common().Args {
+					if isNamed(a.Type(), typesPkg, "SessionType") {
+						bodyType = a
+					}
+				}
+				strip := func(v ssa.Value) ssa.Value {
+					for d := 0; d < 4; d++ {
+						c, ok := v.(*ssa.Call)
+						if !ok {
+							break
+						}
+						sc := c.Common().StaticCallee()
+						if sc == nil || sc.Pkg == nil || sc.Pkg.Pkg.Path() != typesPkg || len(c.Common().Args) == 0 || !isNamed(c.Common().Args[0].Type(), typesPkg, "SessionType") || sc.Signature.Results().Len() != 1 || !isNamed(sc.Signature.Results().At(0).Type(), typesPkg, "SessionType") {
+							break
+						}
+						// Unfold(type, env), CopyType(type): the same type, unfolded or copied
+						if n := sc.Signature.Params().Len(); n != 1 && n != 2 {
+							break
+						}
+						v = c.Common().Args[0]
+					}
+					return v
+				}
+				var same func(x, y ssa.Value, d int) bool
+				same = func(x, y ssa.Value, d int) bool {
+					x, y = strip(x), strip(y)
+					if x == y {
+						return true
+					}
+					if ax := accessPath(x); ax != "" && ax == accessPath(y) {
+						return true
+					}
+					// two loads of the same field of the same object (the declared signature)
+					if lx, ok := x.(*ssa.UnOp); ok {
+						if ly, ok := y.(*ssa.UnOp); ok {
+							fx, okx := lx.X.(*ssa.FieldAddr)
+							fy, oky := ly.X.(*ssa.FieldAddr)
+							if okx && oky && fx.Field == fy.Field && fx.X == fy.X {
+								return true
+							}
+						}
+					}
+					if fx, ok := x.(*ssa.Field); ok {
+						if fy, ok := y.(*ssa.Field); ok && fx.Field == fy.Field && fx.X == fy.X {
+							return true
+						}
+					}
+					if ph, ok := y.(*ssa.Phi); ok && d < 3 {
+						for _, e := range ph.Edges {
+							if !same(x, e, d+1) {
+								return false
+							}
+						}
+						return len(ph.Edges) > 0
+					}
+					return false
+				}
+				nIns := 0
+				for _, b := range m.Fn.Blocks {
+					for _, in := range b.Instrs {
+						mu, ok := in.(*ssa.MapUpdate)
+						if !ok || origin(mu.Map) != right {
+							continue
+						}
+						// the insertion that stands when the continuation is typed: after the
+						// body judgement, before the continuation judgement
+						if !(bodyCall.Block().Dominates(b) && b.Dominates(contCall.Block())) {
+							continue
+						}
+						if b == bodyCall.Block() && indexIn(b, mu) < indexIn(b, bodyCall) {
+							continue
+						}
+						var insType ssa.Value
+						if ld, ok := mu.Value.(*ssa.UnOp); ok {
+							if al, ok := ld.X.(*ssa.Alloc); ok {
+								for _, u := range *al.Referrers() {
+									if fa, ok := u.(*ssa.FieldAddr); ok {
+										if _, n, _ := fieldNameOf(fa); n == "Type" {
+											for _, st := range storesTo(fa) {
+												insType = st.Val
+											}
+										}
+									}
+								}
+							}
+						}
+						if insType == nil || bodyType == nil {
+							continue
+						}
+						nIns++
+						if !same(bodyType, insType, 0) {
+							problems = append(problems, fmt.Sprintf("the spawned body is typed against %s but the new name enters the continuation's context (at %s) with %s: nothing relates the two, so the continuation may use the channel at a type its provider does not offer", describeVal(bodyType), p.instrPos(mu), describeVal(insType)))
+						}
+					}
+				}
+				_ = nIns
 			}
 			if len(problems) == 0 {
 				r.add(name, construct, Holds, p.instrPos(call), "")
